@@ -108,6 +108,10 @@ func c06Prop(t *rapid.T) {
 			if backend != "memory" {
 				op.Fault = world.Fault{Kind: "crash", K: rapid.IntRange(3, 12).Draw(t, "crashAt")}
 			}
+		case 2:
+			// a failed storage write (second or third write of the operation): histories with residue such as two
+			// revisions marked deployed
+			op.Fault = world.Fault{Kind: "store", K: rapid.IntRange(1, 2).Draw(t, "storeFaultAt")}
 		}
 		ops = append(ops, op)
 		res := w.Run(op)
@@ -128,6 +132,9 @@ func c06Prop(t *rapid.T) {
 		hstate = "last-" + h[len(h)-1].Status
 	}
 	lbls = append(lbls, "history:"+hstate)
+	if len(deployedRevs(w.History())) > 1 {
+		lbls = append(lbls, "history:two-revisions-marked-deployed")
+	}
 	evid.Case(lbls, backend+"|"+strings.Join(trace, ";"), nontrivial, map[string]interface{}{"backend": backend, "history": trace})
 }
 
